@@ -1,3 +1,3 @@
-(* _client.py :: async_ncrypt_unprotect_secret :: ('callarg', '_async_get_key', 0, 'password') :  password *)
+(* _client.py :: async_ncrypt_unprotect_secret :: shape kernel :  _async_get_key(... password: password  [= password] ...) *)
 Definition k_onl_aunprot_kw_password (password : list Z) : list Z :=
   password.
